@@ -26,7 +26,7 @@ Definition leaf_join (l m : leaf) : leaf :=
 
 (* OcTreeLeaf::to_rgba: integer division, `as u8`; color_count = 0 divides by zero *)
 Definition leaf_rgb (l : leaf) : outcome rgb :=
-  if l_n l =? 0 then Panic 1073
+  if l_n l =? 0 then Panic 1104
   else Ok ((l_r l / l_n l) mod 256, (l_g l / l_n l) mod 256, (l_b l / l_n l) mod 256).
 
 Record info := mkInfo { i_leaves : N; i_colors : N; i_min : option N }.
@@ -135,13 +135,13 @@ Fixpoint insert_rec (path : list nat) (c : rgb) (n : node) : outcome node :=
       match n with
       | Empty => Ok (Leaf (leaf_of c))
       | Leaf l => Ok (Leaf (leaf_add l c))
-      | Tree _ _ _ => Panic 1305                     (* unreachable!() *)
+      | Tree _ _ _ => Panic 1336                     (* unreachable!() *)
       end
   end.
 
 Definition oc_insert (t : octree) (c : rgb) : outcome octree :=
   match path_packed c with          (* OcTreePath::new(color), as coded; = path_of c (OctreePath.path_packed_eq) *)
-  | [] => Panic 1311                                  (* expect("OcTreePath can not be empty") *)
+  | [] => Panic 1342                                  (* expect("OcTreePath can not be empty") *)
   | k :: rest =>
       let* child := insert_rec rest c (nth k (o_children t) Empty) in
       let ch' := set_at k child (o_children t) in
